@@ -267,6 +267,10 @@ def main(argv: Optional[List[str]] = None) -> int:
         print(f"VIOLATION property={pid} replay={path}")
     if violations:
         rc = 1
+    elif errs:
+        # every finding of this run is a listed known finding, and some rule could not be evaluated: the run is undecided, not clean
+        print(f"ANALYSIS-ERROR property={pid} {errs[0]}" + (f" (+{len(errs) - 1} more)" if len(errs) > 1 else ""))
+        rc = 2
 
     n_ob = sum(s.obligations for s in ctx.rules.values())
     print(f"SUMMARY property={pid} tier={args.tier} rules={len(ctx.rules)} obligations={n_ob} "
